@@ -25,6 +25,8 @@ THEOREMS = [
     "C06_get_none",
     "C06_request_free",
     "C06_next_free",
+    "C06_request_first",
+    "C06_offer_ignores_cache",
     "C06_conflict_noop",
     "C06_request_terminates",
     "C06_free_standing_refuted",
@@ -335,7 +337,9 @@ def gen_random_case(rng, i):
     return case
 
 
-def gen_exhaustive(depth, kinds):
+def gen_exhaustive(depth, kinds, prefix=(), quiet=False):
+    """All histories of length <= depth over the alphabet; with `prefix` they start from a populated collection;
+    `quiet` = no look-up between the steps (what one operation leaves in the cache is met by the next)."""
     pool = [1, 1, 2]
     alpha = op_alphabet(3, [1, 2, 3])
 
@@ -349,7 +353,154 @@ def gen_exhaustive(depth, kinds):
     for kind in kinds:
         for d in range(1, depth + 1):
             for ops in rec([], d):
-                yield {"kind": kind, "owned": True, "pool": pool, "init": [], "probes": [0, 1, 2, 3, 4], "ops": ops}
+                case = {"kind": kind, "owned": True, "pool": pool, "init": [], "probes": [0, 1, 2, 3, 4], "ops": [list(op) for op in prefix] + ops}
+                if quiet:
+                    case["quiet"] = True
+                    case["probes"] = []
+                yield case
+
+
+# the doors through which a collection gets its members (each leaves the number cache in a different state:
+# append and += cache every new member, extend caches none, append_renumber caches under the final number)
+def _populate(rng, members):
+    r = rng.random()
+    if r < 0.35:
+        return [["append", o] for o in members]
+    if r < 0.55:
+        return [["extend", list(members)]]
+    if r < 0.70:
+        return [["iadd", list(members)]]
+    if r < 0.85:
+        k = rng.randint(0, len(members))
+        return [["append", o] for o in members[:k]] + ([["extend", list(members[k:])]] if members[k:] else [])
+    return [["append_renumber", o, 1] for o in members]
+
+
+def gen_edit_then_query(rng, i):
+    """An edit followed at once by queries aimed at the numbers the edit touched, with NOTHING in between that walks
+    the collection (quiet case: members are read by iteration only). Every answer of the collection that may come
+    from the number cache (get, [], del, slices, `in`, check_number, request_number, next_number, append_renumber)
+    is asked in the window in which the cache still describes the state before the edit (seeded C06e: request_number
+    answered from the cache right after a number assignment). Owned collections mostly; members have distinct
+    numbers; the pool keeps free objects for the entry doors."""
+    kind = KINDS[i % len(KINDS)]
+    owned = rng.random() < 0.85
+    nobj = rng.randint(3, 6)
+    pool = rng.sample(range(1, 8), nobj) if rng.random() < 0.8 else [rng.randint(1, 5) for _ in range(nobj)]
+    nmem = rng.randint(1, nobj - 1) if rng.random() < 0.8 else nobj
+    order = list(range(nobj))
+    rng.shuffle(order)
+    members, seen = [], set()
+    for o in order[:nmem]:
+        if pool[o] not in seen:
+            members.append(o)
+            seen.add(pool[o])
+    init, ops = [], []
+    if owned:
+        ops += _populate(rng, members)
+    else:
+        init = list(members)
+    # the harness's own book-keeping of the numbers (only to aim the queries; verdicts come from the observations)
+    num = {o: pool[o] for o in range(nobj)}
+    mem = list(members)
+
+    def free_number():
+        used = {num[o] for o in mem}
+        cand = [n for n in range(1, 10) if n not in used]
+        return rng.choice(cand) if cand and rng.random() < 0.85 else rng.randint(1, 9)
+
+    for _ in range(rng.randint(1, 5)):
+        touched = []
+        r = rng.random()
+        if r < 0.55 and mem and (owned or rng.random() < 0.3):
+            o = rng.choice(mem)
+            n = free_number()
+            if rng.random() < 0.3:
+                # close a gap / compact: the member takes the lowest number the collection would offer
+                used = {num[x] for x in mem}
+                n = next(k for k in range(1, 20) if k not in used)
+            ops.append(["setnum", o, n])
+            touched += [num[o], n]
+            if n not in {num[x] for x in mem if x != o}:
+                num[o] = n
+        elif r < 0.65 and mem:
+            o = rng.choice(mem)
+            ops.append(["remove", o])
+            touched.append(num[o])
+            mem.remove(o)
+        elif r < 0.72 and mem:
+            pos = rng.choice([-1, 0])
+            ops.append(["pop", pos])
+            o = mem.pop(pos)
+            touched.append(num[o])
+        elif r < 0.78 and mem:
+            o = rng.choice(mem)
+            ops.append(["delitem", num[o]])
+            touched.append(num[o])
+            mem.remove(o)
+        elif r < 0.90:
+            out = [o for o in range(nobj) if o not in mem]
+            if out:
+                o = rng.choice(out)
+                door = rng.choice(["append", "setitem", "append_renumber", "extend", "iadd"])
+                used = {num[x] for x in mem}
+                touched.append(num[o])
+                if door == "append_renumber":
+                    k = rng.choice([1, 1, 2])
+                    ops.append([door, o, k])
+                    while num[o] in used:
+                        num[o] += k
+                    touched.append(num[o])
+                    mem.append(o)
+                else:
+                    ops.append([door, [o]] if door in ("extend", "iadd") else [door, o])
+                    if num[o] not in used:
+                        mem.append(o)
+            else:
+                ops.append(["clear"])
+                touched += [num[x] for x in mem]
+                mem = []
+        else:
+            o = rng.randrange(nobj)
+            n = free_number()
+            ops.append(["setnum", o, n])
+            touched += [num[o], n]
+            if o not in mem or n not in {num[x] for x in mem if x != o}:
+                num[o] = n
+        touched = touched or [1]
+        for _ in range(rng.randint(1, 3)):
+            t = rng.choice(touched)
+            q = rng.random()
+            if q < 0.40:
+                # a walk that starts at the touched number, or below it and reaches it by steps
+                k = rng.choice([1, 1, 1, 2, -1])
+                back = rng.choice([0, 0, 1, 2, 3]) if rng.random() < 0.7 else t - 1
+                ops.append(["request_number", t - k * back, k])
+            elif q < 0.50:
+                ops.append(["next_number", rng.choice([1, 1, 2])])
+            elif q < 0.60:
+                ops.append(["check_number", t])
+            elif q < 0.72:
+                ops.append(["get", t])
+            elif q < 0.78:
+                ops.append(["getitem", t])
+            elif q < 0.84:
+                ops.append(["slice", t - rng.randint(0, 1), t + rng.randint(0, 2)])
+            elif q < 0.92:
+                ops.append(["contains", rng.randrange(nobj)])
+            else:
+                out = [o for o in range(nobj) if o not in mem]
+                if out:
+                    o = rng.choice(out)
+                    ops.append(["append_renumber", o, 1])
+                    used = {num[x] for x in mem}
+                    while num[o] in used:
+                        num[o] += 1
+                    mem.append(o)
+                else:
+                    ops.append(["request_number", 1, 1])
+    ops += [["contains", o] for o in range(nobj)]
+    return {"kind": kind, "owned": owned, "pool": pool, "init": init, "probes": [], "quiet": True, "ops": ops}
 
 
 CORPUS = [
@@ -373,6 +524,17 @@ CORPUS = [
     # seeded/C06b: an object that arrives linked to another problem is re-linked on append
     {"kind": "cell", "owned": True, "pool": [1, 2, 10], "foreign": [False, False, True], "init": [], "probes": PROBES, "ops": [["append", 0], ["append", 1], ["append", 2], ["setnum", 2, 2]]},
     {"kind": "surface", "owned": True, "pool": [1, 10], "foreign": [False, True], "init": [], "probes": PROBES, "ops": [["append", 0], ["setitem", 1], ["setnum", 1, 1]]},
+    # seeded C06e: request_number answered from the number cache right after a number assignment (the cache still
+    # holds the old number and not the new one; nothing walked the collection in between): same start; reached by
+    # steps; closing a gap with the lowest free number and asking again; members that came in through extend
+    {"kind": "cell", "owned": True, "pool": [4], "init": [], "probes": [], "quiet": True,
+     "ops": [["append", 0], ["setnum", 0, 6], ["request_number", 6, 1]]},
+    {"kind": "surface", "owned": True, "pool": [1, 2, 5], "init": [], "probes": [], "quiet": True,
+     "ops": [["extend", [0, 1, 2]], ["setnum", 2, 3], ["request_number", 1, 1], ["next_number", 1]]},
+    {"kind": "material", "owned": True, "pool": [1, 3], "init": [], "probes": [], "quiet": True,
+     "ops": [["append", 0], ["append", 1], ["setnum", 1, 10], ["request_number", 10, 1], ["request_number", 3, 1]]},
+    {"kind": "transform", "owned": True, "pool": [1, 2, 7, 3], "init": [], "probes": [], "quiet": True,
+     "ops": [["iadd", [0, 1, 2]], ["setnum", 2, 3], ["request_number", 1, 2], ["append_renumber", 3, 1], ["contains", 3]]},
     # known finding C06-F1
     {"kind": "cell", "owned": False, "pool": [1, 2], "init": [0, 1], "probes": PROBES, "ops": [["setnum", 1, 1]]},
 ]
@@ -388,7 +550,9 @@ def run(chk):
     chk.rule = (
         "cases are operation histories on a pool of 3-6 objects with colliding numbers, on all five collection "
         "types, owned by a problem or free-standing; after every operation keys(), values() and get(n) for "
-        "n in -1..9 are observed. A case is non-trivial if it has >= 2 operations; distinct = distinct canonical JSON."
+        "n in -1..9 are observed (a third of the random cases and the families 'edit then query' / 'populated, quiet' "
+        "read the members by iteration only, so that a query meets the cache exactly as the edit before it left it). "
+        "A case is non-trivial if it has >= 2 operations; distinct = distinct canonical JSON."
     )
     chk.assumptions = [
         "Python == on members is modelled by value classes (St.content): surfaces/materials of one class are == while their numbers are equal; other kinds compare by identity",
@@ -411,17 +575,26 @@ def run(chk):
     ncorpus = len(cases)
     cases += [gen_random_case(rng, i) for i in range(chk.pick(3000, 120000))]
     nrandom = len(cases) - ncorpus
+    rng2 = chk.rng("edit-then-query")
+    etq = [gen_edit_then_query(rng2, i) for i in range(chk.pick(2000, 60000))]
+    cases += etq
     exh = list(gen_exhaustive(chk.pick(2, 3), chk.pick(["cell", "surface", "universe"], KINDS)))
     if chk.thorough:
         # depth 3 over the full alphabet is 50^3 per kind: keep every kind at depth 2 and a strided sample of depth 3
         exh = [c for j, c in enumerate(exh) if len(c["ops"]) < 3 or j % 7 == chk.seed % 7]
     cases += exh
-    chk.units["U-collection"] = {"corpus": ncorpus, "random": nrandom, "exhaustive_small": len(exh)}
+    # every (edit, query) pair of the alphabet on a populated collection with no look-up in between, for each entry door
+    exq = []
+    for prefix in ([["append", 0], ["append", 2]], [["extend", [0, 2]]]):
+        exq += [c for c in gen_exhaustive(2, chk.pick(["cell", "surface", "universe"], KINDS), prefix, quiet=True) if len(c["ops"]) == len(prefix) + 2]
+    cases += exq
+    chk.units["U-collection"] = {"corpus": ncorpus, "random": nrandom, "edit_then_query": len(etq), "exhaustive_small": len(exh), "exhaustive_populated_quiet": len(exq)}
     chk.exhaustive = False
 
     impl = pmap(run_impl, cases)
     model = drv.batch(cases)
 
+    nsig, ndis = {}, 0
     for i, (case, ri) in enumerate(zip(cases, impl)):
         chk.note_case(case, _nontrivial(case), sample_every=5000)
         chk.count("kind:" + case["kind"])
@@ -447,7 +620,9 @@ def run(chk):
                 v = judge(c, run_impl(c))
                 return v is not None and v[1] == sig
 
-            ops = shrink_list(case["ops"][: k + 1], fails)
+            # minimise the first few histories of a signature; later ones are counted (and kept if shorter)
+            nsig[canon(sig)] = nsig.get(canon(sig), 0) + 1
+            ops = shrink_list(case["ops"][: k + 1], fails) if nsig[canon(sig)] <= 4 else case["ops"][: k + 1]
             mc = dict(case, ops=ops)
             chk.violation(sig, f"{sig['class']} after {sig['op']} on a {sig['kind_owned']} collection", {"case": mc, "impl": run_impl(mc)})
         if model is not None:
@@ -467,7 +642,9 @@ def run(chk):
                     c = dict(case, ops=ops)
                     return run_impl(c) != drv.batch([c])[0]
 
-                ops = shrink_list(case["ops"][:judged_upto], differs) if len(chk.broken) < 3 else case["ops"]
+                # (chk.broken merges by unit name: count here, so that only the first few disagreements are minimised)
+                ndis += 1
+                ops = shrink_list(case["ops"][:judged_upto], differs) if ndis <= 3 else case["ops"][:judged_upto]
                 mc = dict(case, ops=ops)
                 chk.broken_obligation(
                     "correspondence",
@@ -485,6 +662,8 @@ def _truncate(res, n):
 
 def replay(chk, payload):
     case = payload.get("case", {}).get("case") or payload.get("case")
+    if case is None and "ops" in payload and "kind" in payload:
+        case = payload  # a bare case, as stored under corpus/C06/
     if payload.get("verdict") == "no-failing-input-found":
         case = payload["no_longer_checks"][0]["case"]
     chk.rule = "replay of one stored case"
